@@ -359,6 +359,17 @@ theorem macro_fast_path_sound_at (f c : Nat) (hf : f ∈ MacroFast.formatCodes)
   have h2 := (List.all_eq_true.mp h1) c hc
   simpa [h] using h2
 
+/-- **Inside a URL the macro fast path is never taken**: `canOptimizeShowMacro` reads the emitter's
+`inURL` flag (the one the generic branch hands to `emitShow`) and refuses every (result format,
+context) pair when it is set, so a `{{ M(…) }}` in an attribute URL or a Markdown link destination
+goes through `renderer.Show` and is URL-escaped like the variable form. Repair 173b2b7 of the
+former finding macro-fastpath-ignores-url; `macro_fast_path_sound` is about `macroGuardU false`. -/
+theorem macro_fast_path_refuses_url (f c : Nat) : Gen.ShowFastPath.macroGuardU true f c = false := by
+  simp [Gen.ShowFastPath.macroGuardU]
+
+example : Gen.ShowFastPath.macroGuardReadsInURL = true ∧
+    Gen.ShowFastPath.macroGuardU false 5 5 = true ∧ Gen.ShowFastPath.macroGuardU true 5 5 = false := by decide
+
 /-- non-vacuity: the guard accepts the same-format pairs and Markdown in HTML; there the generic
 path is a raw write, respectively the converter; and HTML-escaping contexts are not identities -/
 example : MacroFast.acceptedPairs Gen.ShowFastPath.macroGuard ≠ [] := by decide
@@ -385,16 +396,19 @@ theorem render_fast_path_sound_partial :
 
 /-- The full statement `ScriptCtxAgree` (for every ASCII script prefix the lexer's context at the
 hole abstracts the ECMAScript lexical state) is false of the lexer model: after
-`var r = /"/; var x = `, after ``var t = `"`; var x = `` and after `var p = "C:\\"; var x = ` the
-model lexer is in context JSString where the reference scanner is in code position. Known findings
-js-regex-literal-quote, js-template-literal, string-escaped-backslash-desync. No `_partial`
-theorem: agreement on a class of documents is NOT proved (end-to-end oracle only). -/
+`var r = /"/; var x = ` and after ``var t = `"`; var x = `` the model lexer is in context JSString
+where the reference scanner is in code position. Known findings js-regex-literal-quote,
+js-template-literal. After `var p = "C:\\"; var x = ` (a string ending in an escaped backslash,
+formerly the third witness: finding string-escaped-backslash-desync, repaired by 8287339) the model
+lexer is in code position like the reference — third conjunct; such strings are inside class `D` of
+the layer-2 theorems now. -/
 theorem script_ctx_agree_false : ¬ LexerWitness.ScriptCtxAgree ∧
     LexerWitness.holeCtxs (LexerWitness.scriptOpen ++ LexerWitness.templateWitness ++ LexerWitness.holeClose)
       = some [Gen.LexTables.ContextJSString] ∧
     LexerWitness.holeCtxs (LexerWitness.scriptOpen ++ LexerWitness.backslashWitness ++ LexerWitness.holeClose)
-      = some [Gen.LexTables.ContextJSString] :=
-  ⟨LexerWitness.scriptCtxAgree_false, LexerWitness.templateWitness_ctx.1, LexerWitness.backslashWitness_ctx.1⟩
+      = some [LexerWitness.ctxOf (LexerWitness.jsRef LexerWitness.backslashWitness)] :=
+  ⟨LexerWitness.scriptCtxAgree_false, LexerWitness.templateWitness_ctx.1,
+    by rw [LexerWitness.backslashWitness_ctx.2]; exact LexerWitness.backslashWitness_ctx.1⟩
 
 /-! ## Layer 2 — agreement on class `D`, first hole -/
 
